@@ -55,5 +55,10 @@ if os.path.exists(os.path.join(src, "notes.md")):
     shutil.copy(os.path.join(src, "notes.md"), os.path.join(dst, "notes.md"))
 meta["needs"] = open(os.path.join(src, "notes.md")).read()[:1500] if os.path.exists(os.path.join(src, "notes.md")) else ""
 meta["caught_by"] = [c for c, r in meta.get("checks", {}).items() if r["exit"] != 0]
+# first violation of every check that carries a failing input (not a broken tie only)
+meta["witness_by"] = [c for c, r in meta.get("checks", {}).items() if any("no-failing-input-found" not in v for v in r["violations"])]
+if meta.get("demo_with_patch") == 0:
+    meta["obsolete"] = ("the demonstration passes with the patch on the current tree: a later repair of /repo made this change harmless; "
+                        "a check that still reports it does so through a broken tie only")
 json.dump(meta, open(os.path.join(dst, "meta.json"), "w"), indent=1)
 print("caught by:", meta["caught_by"])
